@@ -14,6 +14,15 @@ type lineWriter struct {
 	line strings.Builder
 }
 
+// currentEvents delivers output to whatever receives the project's events at the time of
+// the write (run() with a callback replaces the receiver for the duration of the build).
+type currentEvents struct {
+	discardEventsT
+	proj *Project
+}
+
+func (e currentEvents) Print(label *label.Label, line string) { e.proj.events.Print(label, line) }
+
 func newLineWriter(label *label.Label, events Events) *lineWriter {
 	return &lineWriter{label: label, events: events}
 }
